@@ -118,7 +118,8 @@ CHECKS = {
                  "rearrangements are permutations of the positions); the run compares the model's gather lists with numpy on ~770 shape/argument "
                  "combinations; likewise basic indexing with Python slice semantics, split / array_split, diag, atleast_nd, broadcast_to "
                  "(IndexFns: basic_index_reads, split_reads, ...) and where / choose / full / hstack / vstack / dstack (SelectFns: where_reads, "
-                 "choose_reads, vstack_reads, ...), ~1350 model-vs-numpy cases per run. 31 functions / methods / indexing forms are run on 0-3-d "
+                 "choose_reads, vstack_reads, ...) and integer-array indexing / take / repeat with counts (AdvIndexFns: advanced_index_reads, "
+                 "separated_advanced_index_reads, take_reads, repeat_counts_reads), ~1500 model-vs-numpy cases per run. 31 functions / methods / indexing forms are run on 0-3-d "
                  "arrays incl. transposed views; the expected placement comes from running the same numpy function on "
                  "index arrays and gathering in the Lean model; joins use operands with different names and terms.",
          "note": BASE_NOTE + " numpy's shape functions are assumed to be value-independent rearrangements (that is what running them on index arrays uses)."},
@@ -143,7 +144,9 @@ CHECKS = {
                  "pattern on constants (f 0 = 0 keeps retained zero columns zero; the value is read from the all-zero "
                  "exponent row). constant_iff (constant with value c <=> denotes C c) turns every denotation theorem into a "
                  "statement on values: const_arith, const_gather, const_linear, const_prod, const_bilinear, const_compare - on "
-                 "constants the executable operations ARE numpy's operations on the underlying values, whatever the options. The run "
+                 "constants the executable operations ARE numpy's operations on the underlying values, whatever the options. numpy's semantics on "
+                 "integer / rational value arrays is in the model too (ConstFns: argmax_first_occurrence, argmax_axis, floor_divide_remainder, "
+                 "rint_half_to_even, isclose_is_relative_to_b, nonzero_lists_nonzeros) and compared with numpy in every run. The run "
                  "calls every registered function on constant polynomials next to numpy on the raw arrays over axis / "
                  "keepdims grids, and the numeric division functions with non-constant divisors (FeatureNotSupported).",
          "note": BASE_NOTE + " Pattern-level: theorems cover the patterns, the per-function assignment is tied by the run. Known findings D9b, D21, D22, D29 are pinned by the package's own tests/docstrings."},
@@ -182,7 +185,9 @@ CHECKS = {
                  "coefficients, and str(p) must equal the Lean printer's rendering; to_sympy round trip for 0-d polynomials.",
          "note": BASE_NOTE + " str() of numpy scalars is a parameter of the printer model (the harness passes numpy's own text of every coefficient); numpy print options at defaults."},
  "C15": {"ref": "5/C15", "technique": "Lean 4 corollaries of the refinement theorems (stated for all retain flags / display orders) + correspondence over option settings x operation catalogue",
-         "text": "add_indep, mul_indep (also: never fails), clean_indep, align_indep, derivative_indep, display_indep, program_indep "
+         "text": "program3_wf / program3_indep / program3_succeeds_indep (programs with derivative by name, any gather, joins and linear "
+                 "reductions: same shape and elements under any two flag settings; derivative_by_name_success_depends_on_flags is the proved limit). "
+                 "add_indep, mul_indep (also: never fails), clean_indep, align_indep, derivative_indep, display_indep, program_indep "
                  "(every program over + - neg pos * **k **array gives the same shape and elements under any two flag settings): the "
                  "refinement theorems of C01/C03/C04/C06/C16 hold for every flag value with an option-free right-hand side, so "
                  "any two settings give the same denotation. The run calls the ~95-entry operation catalogue under the 8 "
